@@ -135,8 +135,11 @@ Plan generate(uint64_t seed, const std::string& focus) {
     auto& nk = k.net;
     nk.lat_max = r.pick<ns_t>({0, 100 * US, 2 * MS, 2 * MS, 20 * MS, 200 * MS});
     nk.lat_min = 0;
-    nk.write_done_max = r.pick<ns_t>({0, 1 * MS, 1 * MS, 10 * MS, 100 * MS});
+    // completion of a write may lag far behind the delivery of its bytes (full send buffer): replies then overtake
+    // the write completion and everything queued behind the write piles up
+    nk.write_done_max = r.pick<ns_t>({0, 1 * MS, 1 * MS, 10 * MS, 100 * MS, 100 * MS, 1500 * MS, 1 * MS});
     nk.write_done_zero_p = r.pick<double>({0.0, 0.3, 0.6, 0.9, 1.0});
+    nk.write_block_p = r.pick<double>({0.0, 0.3, 0.6, 1.0});
     nk.short_write_p = r.pick<double>({0.0, 0.0, 0.1, 0.3});
     nk.seg_split_p = r.pick<double>({0.0, 0.2, 0.5});
     nk.chunk_mode = (int)r.pick<int>({-1, -1, 0, 1, 2});
